@@ -13,7 +13,7 @@ import c19_conv as K
 import c19_misc as M
 
 ID = "C19"
-TABLES = ["toBoolTrue", "toBoolFalse", "toBoolLowers"]
+TABLES = ["toBoolTrue", "toBoolFalse", "toBoolLowers", "fn_to_bool"]
 PARALLEL = True
 BUDGET_S = {"quick": 40, "thorough": 420}
 EXHAUSTIVE = {"quick": False, "thorough": False}
